@@ -27,6 +27,16 @@ func forge(kind string, ev *sim.Event, s *sim.Session, rng *rand.Rand) []byte {
 		padAt, _ = strconv.Atoi(w[2])
 		kind = "padbyte"
 	}
+	// "padlong:<N>": a correctly signed reply whose confidentiality pad is 01 02 .. N followed by the pad length N with
+	// N > 16 - every pad byte right, the length beyond what IPMI v2.0 13.29 allows (15)
+	padLong := 0
+	if strings.HasPrefix(kind, "padlong:") {
+		padLong, _ = strconv.Atoi(strings.Split(kind, ":")[1])
+		kind = "padlong"
+		// message length so that message + N pad bytes + the length byte fill whole blocks
+		base := 7 + len(data) + 20
+		extra = (16 - (base+padLong+1)%16) % 16
+	}
 	for i := 0; i < 20+extra; i++ { // a value the BMC never produced
 		data = append(data, 0xA5)
 	}
@@ -67,6 +77,15 @@ func forge(kind string, ev *sim.Event, s *sim.Session, rng *rand.Rand) []byte {
 		return full(s.BMCID, s.K1)
 	case "zerosid":
 		return full(0, s.K1)
+	case "padlong":
+		plain := append([]byte{}, iv...)
+		plain = append(plain, msg...)
+		for i := 1; i <= padLong; i++ {
+			plain = append(plain, uint8(i))
+		}
+		plain = append(plain, uint8(padLong))
+		sim.EncryptAESRaw(s.K2, plain)
+		return sim.WrapRaw(0xC0, s.ConsoleID, seq, plain, s.Integ, s.K1)
 	case "badpad", "padover", "padzero", "padbyte":
 		// needs the keys: correctly signed, confidentiality pad malformed
 		n := (16 - (len(msg)+1)%16) % 16
